@@ -50,6 +50,7 @@ Inv_TamperRefused == ~TamperRefusedBroken(Verdict(c), Predict(c).res)
 Mutant_Report ==
   IF TamperRefusedBroken(Verdict(c), Predict(c).res)
      \/ (Predict(c).res = "ok" /\ ~(ConsensusValid(FinTx) /\ FeeOk(FinTx) /\ Exact(c, FinTx)))
+     \/ (c.tamper = "none" /\ Predict(c).res # "ok")
   THEN PrintT(<<"MUTCEX", ToJson([flow |-> c.flow, stage |-> c.stage, tamper |-> c.tamper, nch |-> c.nch, nin |-> c.nin])>>)
   ELSE TRUE
 
